@@ -30,8 +30,12 @@ MANIFEST = {
     "technique": "Lean 4 proof over executable model + retry-shape census (Tie A) + fault enumeration with monitors (Tie B)",
 }
 
+# adopt:<options>:<path>: a TCP handle with options remembered while it had no socket (uv_tcp_nodelay / uv_tcp_keepalive
+# before any socket exists) is given a descriptor through every adoption path; the system calls that apply the remembered
+# options during the adoption are fault points like any other (harness: sc_adopt)
+ADOPT = [f"adopt:{o}:{p}" for p in ("accept", "ipc", "open", "bind", "listen", "connect") for o in ("nodelay", "keepalive", "both")]
 SCENARIOS = ["timers", "tcp", "pipe", "ipc", "udp", "fs_sync", "fs_async", "gai", "work", "spawn", "signal",
-             "fs_event", "fs_poll", "poll", "os"]
+             "fs_event", "fs_poll", "poll", "os"] + ADOPT
 
 # errno values that are meaningful for a call (keyed by call, optionally call@kind; kinds: s socket, p pipe,
 # e eventfd, i inotify, f file, - none).  write@p / write@e never get EAGAIN: those writes only block when the
@@ -58,6 +62,7 @@ ERRNOS = {
     "waitpid": ["EINTR"], "poll": ["EINTR"], "nanosleep": ["EINTR"], "fsync": ["EINTR"], "fdatasync": ["EINTR"],
     "ftruncate": ["EINTR"], "close": ["EINTR"], "fork": ["EAGAIN", "ENOMEM"], "statx": ["ENOMEM"],
     "sendfile": ["EINTR", "EAGAIN"], "bind": ["ENOMEM"], "listen": [],
+    "setsockopt": ["ENOBUFS", "ENOMEM"],
     # libc-level entry points of the file API (failed as a whole; uv__fs_work retries all of them on EINTR)
     "opendir": ["EINTR", "EMFILE", "ENFILE", "ENOMEM"], "scandir": ["EINTR", "EMFILE", "ENFILE", "ENOMEM"],
     "mkstemp": ["EINTR", "EMFILE", "ENFILE", "ENOMEM"], "readlink": ["EINTR", "ENOMEM"], "realpath": ["EINTR", "ENOMEM"],
@@ -215,6 +220,52 @@ def atom_correspondence(ctx, exe, sym, stats):
             # exercises the same call inside the scenarios
     ctx.notes["per_op_correspondence"] = {"cases": len(cases), "agree": agree}
     ctx.sample({"atom": cases[1][2], "model": model[1] if len(model) > 1 else None})
+
+
+ERRNO_NUM = {"ENOBUFS": 105, "ENOMEM": 12}
+
+def adopt_correspondence(ctx, bases, by_spec, sym, stats):
+    """adoption model (lean/UvModel/Adopt.lean, `uvdriver c16adopt`) against the library: for every adopt scenario the
+    setsockopt calls the model lists are the ones the library issues (count), and for the fault-free run and for every
+    one of them failing with ENOBUFS / ENOMEM the model's (return code, handle owns a descriptor, open-descriptor delta)
+    equals what the harness observed right after the adopting call (`OA` line).  The runs themselves belong to the
+    single-fault enumeration; their monitors are evaluated there."""
+    req, meta = [], []
+    for s in ADOPT:
+        _, o, path = s.split(":")
+        nd, ka = int(o in ("nodelay", "both")), int(o in ("keepalive", "both"))
+        req.append(f"points {path} {nd} {ka}"); meta.append((s, path, nd, ka))
+    pts = ctx.driver(["c16adopt"], "\n".join(req) + "\n").splitlines()
+    cases = []
+    for (s, path, nd, ka), pl in zip(meta, pts):
+        if not pl.startswith("points"):
+            ctx.broken_correspondence("c16adopt points", f"{s}: {pl}"); continue
+        labels = pl.split()[1:]
+        pre = 1 if path == "accept" else 0          # SO_REUSEADDR of the listening handle's bind precedes the adoption
+        seen = bases[s].counts.get("setsockopt@s", 0)
+        if seen != pre + len(labels):
+            ctx.broken_correspondence(f"c16adopt {s}", f"the model lists {len(labels)} setsockopt calls ({' '.join(labels)}) "
+                                      f"after {pre} earlier ones; the library made {seen}")
+            continue
+        cases.append((f"run {path} {nd} {ka} fault none", bases[s], f"{s} no fault"))
+        for k, lab in enumerate(labels):
+            for e, num in ERRNO_NUM.items():
+                r = by_spec.get(f"{s} sys:setsockopt@s:{pre + k + 1}:{e}")
+                if r is not None:
+                    cases.append((f"run {path} {nd} {ka} fault {k} {num}", r, f"{s} {lab} {e}"))
+    model = ctx.driver(["c16adopt"], "".join(c[0] + "\n" for c in cases)).splitlines()
+    agree = 0
+    for (dline, r, desc), m in zip(cases, model):
+        ctx.count()
+        obs = next((l[3:] for l in r.lines if l.startswith("OA ")), None)
+        if obs == m:
+            agree += 1; ctx.validated(); ctx.nontrivial(("adopt", desc))
+        elif not r.viol and r.abort is None and not r.hang and (r.status or "") in ("code 0", "code 1"):
+            # monitors green on this run: the model and the code disagree (the enumeration around it is the search)
+            ctx.broken_correspondence("c16adopt " + desc, f"model `{m}` vs implementation `{obs}`")
+    ctx.notes["adopt_correspondence"] = {"cases": len(cases), "agree": agree}
+    if cases:
+        ctx.sample({"adopt": cases[-1][2], "model": model[-1] if model else None})
 
 
 class Run:
@@ -386,6 +437,12 @@ def judge(ctx, run, base, sym, stats):
             key = "fd-leak:" + ("+".join(f"{t}x{n}" if n > 1 else t for t, n in sorted(_C(a).items())) or "lost") + ":" + first_failure(run)
         elif kind == "eintr-timeout-not-reduced":
             key = kind + ":" + detail.split("(")[0]
+        elif kind in ("failed-adoption-fd-claimed", "handle-fd-not-open", "adopted-fd-missing"):
+            key = kind + ":" + detail.split()[0]              # the adopting call
+        elif kind in ("foreign-fd-closed", "foreign-fd-replaced"):
+            key = kind + ":" + detail.split(":")[0]           # the adoption path
+        elif kind == "close-not-open":
+            key = kind + ":" + first_failure(run)
         elif kind in ("alloc-leak", "lsan-leak", "active-reqs", "loop-alive", "loop-close", "stall", "invalid-free"):
             key = kind + ":" + first_failure(run)
         out.append((key, v[:400]))
@@ -447,7 +504,7 @@ def run(ctx):
                         "libc-level file calls (opendir, scandir, readlink, realpath, mkdtemp, mkstemp, rename, unlink, mkdir, rmdir, symlink, access) are failed as a whole; faults inside getaddrinfo, fopen, getpwuid_r, getifaddrs remain out of reach",
                         "the forked child before exec runs without fault injection"]
     lost = check_census(ctx)          # regenerates Generated/RetryCensus.lean first: Props.C16 proves a theorem about it
-    lean_ok = ctx.require_lean(["UvModel.Props.C16"])
+    lean_ok = ctx.require_lean(["UvModel.Props.C16", "UvModel.Props.C16Adopt"])
     if lost or not lean_ok:
         ctx.notes["search"] = ("a proof / census obligation no longer checks: the complete single-fault enumeration, EINTR storms on "
                                "every interruptible call and the pair sample below are the search for a failing input")
@@ -521,9 +578,18 @@ def run(ctx):
         for s in SCENARIOS:
             specs += [f"{s} {a} {b}" for a, b in itertools.combinations(singles[s], 2)]
     specs = list(dict.fromkeys(specs))
+    ctx.notes["adoption_classes"] = {
+        "scenarios": len(ADOPT),
+        "setsockopt_fault_points": sum(1 for s in ADOPT for p in singles[s] if p.startswith("sys:setsockopt")),
+        "what": "remembered option (nodelay | keepalive | both) x adoption path (uv_accept from a TCP listener, uv_accept over an "
+                "IPC pipe, uv_tcp_open, lazy socket creation in uv_tcp_bind / uv_listen / uv_tcp_connect) x every setsockopt "
+                "occurrence x {ENOBUFS, ENOMEM}; monitors: a failed adoption leaves the handle without a descriptor, a claimed "
+                "descriptor is open, descriptors the application opens afterwards survive the close of every handle, no close() "
+                "of a number that is not open"}
     ctx.log(f"{len(specs)} fault runs over {len(SCENARIOS)} scenarios")
     results = run_batch(ctx, exe, specs)
     suspects = []
+    adopt_correspondence(ctx, bases, {r.spec: r for r in results}, sym, stats)
     for r in results:
         ctx.count(); stats["runs"] += 1
         scen = r.spec.split()[0]
